@@ -2,14 +2,15 @@
 
 Correspondence: whole call histories over `SplineObject.reverse / swap / reparam` (every direction
 spelling, both calling conventions of `reparam`, default arguments, invalid directions / intervals)
-on one receiver versus the Lean model `runHistory` (lean/Splipy/Model/Reparam.lean: `checkDirection`,
+on one receiver versus the Lean model `runReHistory` (lean/Splipy/Model/Reparam.lean: `checkDirection`,
 `Obj.reverseTok`, `Obj.swapTok`, `Obj.reparamArgs`, `Obj.reparamDirTok` on top of `Basis.reverse`,
 `Basis.reparam`, `Obj.reverse`, `Obj.swap`).  Observables after EVERY call (also a failed one, the
 receiver may be partially modified): exception class, `returns_self` (the call returned the receiver),
 knot vectors, control points, periodicity, rationality.
-The model mirrors the CODE (`MODEL_MODE = 'code'`: control points only flipped on a periodic
-direction, `swap` on a curve returns None).  `MODEL_MODE = 'spec'` makes the model follow the
-property instead (flip + roll by k+1, swap returns the receiver) — to be used after a `fix:` commit.
+The model mirrors the CODE (`MODEL_REVERSE_MODE = MODEL_SWAP_MODE = 'code'`: control points only
+flipped on a periodic direction, `swap` on a curve returns None).  Setting either to 'spec' makes the
+model follow the property instead (flip + roll by k+1 / swap returns the receiver) — to be used after
+a `fix:` commit of the corresponding defect.
 
 Oracle (model independent, real objects only): before every call the receiver is cloned; after it
   reverse(d):  new(.., a+b-t, ..) == old(.., t, ..) on p+1 points per knot span and at every knot
@@ -38,7 +39,10 @@ from vlib.compare import diff, Err, exc_kind
 ID = 'C06'
 RTOL = 1e-9
 ATOL = 1e-11
-MODEL_MODE = 'code'      # 'spec' once the periodic-reverse / curve-swap defects are fixed in /repo
+# The model mirrors the CODE for the two known defects; set to 'spec' once the defect is fixed in /repo
+# (then the model follows the property: flip + roll by k+1 / swap on a curve returns the receiver).
+MODEL_REVERSE_MODE = 'code'
+MODEL_SWAP_MODE = 'code'
 RULE = ('histories of 1-6 calls over reverse/swap/reparam on random objects (pardim 1-3, rational or not, open/periodic '
         'directions, orders 1-4, non-square nets); direction spellings 0/1/2, u/v/w, U/V/W, defaults, keywords, invalid '
         '(3, -1, x, uv, "", "0", W on a surface ...); reparam(*tuples) with fewer/equal/more tuples than directions, '
@@ -290,9 +294,23 @@ def _periodic_obj(rng, pardim):
             return o
 
 
+_LINE = {'bases': [{'order': 2, 'knots': [0.0, 0.0, 1.0, 1.0], 'periodic': -1}], 'cps': [[0.0, 0.0], [1.0, 0.0]], 'rational': False}
+
+
 def generate(rng, tier):
     specs = []
-    n = 330 if tier == 'quick' else 6000
+    # minimal reproducers of the known failure classes come first (they are the ones reported)
+    # 1. the instance of theorem C06_reverse_periodic_flip_only_refuted (Properties/C06.lean), replayed on the real code
+    specs.append({'family': 'lean-refutation-instance',
+                  'obj': {'bases': [{'order': 2, 'knots': [-1.0, 0.0, 1.0, 2.0, 3.0], 'periodic': 0}],
+                          'cps': [[0.0], [1.0]], 'rational': False},
+                  'ops': [{'op': 'reverse', 'dir': 0}]})
+    # 2. Curve().swap() returns None
+    specs.append({'family': 'curve-swap', 'obj': _LINE, 'ops': [{'op': 'swap', 'dirs': []}]})
+    # 3. Curve().reparam((0, 2^-34)): evaluation snaps with the absolute knot tolerance
+    if INCLUDE_TINY:
+        specs.append({'family': 'tiny-interval', 'obj': _LINE, 'ops': [{'op': 'reparam', 'args': [[0.0, 2.0 ** -34]]}]})
+    n = 1500 if tier == 'quick' else 12000
     for i in range(n):
         pardim = [1, 2, 3, 2, 1, 2][i % 6]
         fam = ['single', 'mixed', 'mixed', 'involution', 'invalid', 'mixed-long'][(i // 6) % 6]
@@ -342,11 +360,6 @@ def generate(rng, tier):
                 args = [list(a) for a in args]
                 args[bad] = [3.0, 1.0]
                 specs.append({'family': 'partial-mutation', 'obj': o, 'ops': [{'op': 'reparam', 'args': args}, _rand_op(rng, pardim, 0.0)]})
-    # the instance of theorem C06_reverse_periodic_flip_only_refuted (Properties/C06.lean), replayed on the real code
-    specs.append({'family': 'lean-refutation-instance',
-                  'obj': {'bases': [{'order': 2, 'knots': [-1.0, 0.0, 1.0, 2.0, 3.0], 'periodic': 0}],
-                          'cps': [[0.0], [1.0]], 'rational': False},
-                  'ops': [{'op': 'reverse', 'dir': 0}]})
     if INCLUDE_TINY:
         for i in range(3 if tier == 'quick' else 30):
             pardim = 1 + i % 3
@@ -383,7 +396,7 @@ def _enc_op(op):
 
 
 def model_line(s):
-    return line('c06_history', gen.enc_object(s['obj']), Word(MODEL_MODE), [_enc_op(op) for op in s['ops']])
+    return line('c06_history', gen.enc_object(s['obj']), Word(MODEL_REVERSE_MODE), Word(MODEL_SWAP_MODE), [_enc_op(op) for op in s['ops']])
 
 
 def _call(obj, op):
